@@ -571,6 +571,10 @@ impl Epoch {
         }
 
         for (idx, char) in s.chars().enumerate() {
+            if idx == 0 && char == '-' {
+                // Sign of a negative (proleptic) year, as printed by Display: it is part of the year, not a separator.
+                continue;
+            }
             if !char.is_numeric() || idx == s.len() - 1 {
                 if cur_token == Token::Timescale {
                     // Then we match the timescale directly.
